@@ -626,9 +626,10 @@ class Judge:
                 and fr[-1][1] == "tree":
             # the hyper presets swallow the trial errors above (on_trial_error='warn'): no trial succeeds
             return "single_tensor:log_of_zero_flops"
-        if err["exc"] == "AssertionError" and "dimension of mean" in err["msg"] and "cmaes_init_optimizers" in names \
-                and (rec or {}).get("method") == "random":
-            return "hyper_cmaes:empty_search_space"
+        if err["exc"] == "AssertionError" and (rec or {}).get("method") == "random" and (
+                ("dimension of mean" in err["msg"] and "cmaes_init_optimizers" in names)
+                or any(f[0] == "hyper_skopt.py" for f in fr)):
+            return "hyper_optlib:empty_search_space"
         if err["exc"] == "ValueError" and inner == "labels_partition" and "max()" in err["msg"]:
             return "labels_partition:empty_edge_weights"
         if err["exc"] == "ValueError" and inner in ("greedy_compressed", "trial_greedy_compressed") and "max()" in err["msg"] \
@@ -638,6 +639,16 @@ class Judge:
                 and "tuple index out of range" in err["msg"]:
             return "interface:empty_explicit_path"
         return None
+
+    def timeout_key(self, rec, confirm):
+        key = confirm(rec) if confirm else None
+        if key is None and len(rec.get("inputs", [0, 0])) == 1 and (
+                rec.get("method") in ("labels", "kahypar", "kahypar-balanced") or rec.get("which") == "divide"
+                or rec.get("preset") in ("hyper", "hyper-labels", "hyper-kahypar", "hyper-balanced", "hyper-256")):
+            # PartitionTreeBuilder.build_divide: the root of a 1-tensor tree is a leaf, yet it is put in
+            # tree.childless and never leaves it (the hyper presets run labels / kahypar trials)
+            key = "build_divide:single_tensor_hang"
+        return key
 
     def path(self, what, rec, n, path, ssa=False):
         ok = oracle.path_is_valid_linear(n, path) if not ssa else ssa_valid_py(n, path)
@@ -673,12 +684,7 @@ class Judge:
                      dict(rec, error=res["err"]), key=key)
         elif "timeout" in res:
             ctx.count("timeouts")
-            key = confirm(rec) if confirm else None
-            if key is None and len(rec.get("inputs", [0, 0])) == 1 and (
-                    rec.get("method") in ("labels", "kahypar", "kahypar-balanced") or rec.get("which") == "divide"):
-                # PartitionTreeBuilder.build_divide: the root of a 1-tensor tree is a leaf, yet it is put in
-                # tree.childless and never leaves it
-                key = "build_divide:single_tensor_hang"
+            key = res.get("key") if "key" in res else self.timeout_key(rec, confirm)
             ctx.fail("%s did not return within %.0fs (a call that does not return is not a contraction)" % (
                 what, res["timeout"]), dict(rec, timeout_s=res["timeout"]), key=key)
         else:
@@ -869,6 +875,22 @@ def _run(ctx, rng, pool, J):
     ctx.log("running %d implementation calls in worker processes" % len(tasks))
     results = pool.run(tasks)
     ctx.log("calls done")
+
+    # a wall-clock limit can be exceeded on a loaded machine: a timeout that is not explained by a known
+    # hang is re-run once, alone, with three times the limit before it is reported
+    for ti, ((kind, what, rec, net, confirm), res) in enumerate(zip(meta, results)):
+        if "timeout" in res:
+            key = J.timeout_key(rec, confirm)
+            if key is None:
+                ctx.count("timeout_retries")
+                res2 = pool.run([dict(tasks[ti], timeout=3 * tasks[ti].get("timeout", TIMEOUT))])[0]
+                if "timeout" not in res2:
+                    results[ti] = res2
+                    ctx.count("timeout_retry_returned")
+                    continue
+                res = res2
+            res["key"] = key
+            results[ti] = res
 
     for (kind, what, rec, net, confirm), res in zip(meta, results):
         f = feats(ctx, net)
